@@ -127,6 +127,34 @@ def fam_C10(tier, seed):
     b.con("ResourceUnavailable", res=res_worker(w), intervals=[[1, 3]], optional=True)
     b.con("WorkLoad", res=res_worker(w), intervals=[[0, 2, 1]], kind="max", optional=True)
     ps.append(b.done())
+    # optional user expressions and optional connectives
+    for k, kind, n in [(2, "exact", 1), (3, "exact", 1), (3, "min", 2), (3, "max", 1)]:
+        b = PB(H, tag="optional-expressions")
+        a, c = _mk(b)
+        idx = [b.con("ConstraintFromExpression", expr=cmp("eq", start(a), v), optional=True) for v in range(k)]
+        b.con("ForceApplyNOptionalConstraints", cons=idx, n=n, kind=kind)
+        ps.append(b.done())
+    b = PB(H, tag="optional-expressions")
+    a, c = _mk(b)
+    b.con("TaskStartAt", task=a, value=0)
+    b.con("ConstraintFromExpression", expr=cmp("eq", start(a), 2), optional=True)
+    ps.append(b.done())
+    for cls in ("Not", "And", "Or", "Xor", "Implies", "IfThenElse"):
+        b = PB(H, tag="optional-connective")
+        a, c = _mk(b)
+        at = _atoms(b, a, c)
+        b.con("TaskStartAt", task=a, value=0)
+        if cls == "Not":
+            b.con("Not", x=at["expr2"](), optional=True)
+        elif cls == "Xor":
+            b.con("Xor", x=at["startAt"](), y=at["sync"](), optional=True)
+        elif cls in ("And", "Or"):
+            b.con(cls, xs=[at["startAt"](), at["endBefore"]()], optional=True)
+        elif cls == "Implies":
+            b.con("Implies", cond=cmp("le", start(a), 1), xs=[at["startAt"]()], optional=True)
+        else:
+            b.con("IfThenElse", cond=cmp("le", start(a), 1), xs=[at["startAt"]()], ys=[at["sync"]()], optional=True)
+        ps.append(b.done())
     # raw expressions
     for e in (lambda a, c: cmp("eq", add(start(a), start(c)), 2),
               lambda a, c: b_or(cmp("lt", end(a), start(c)), cmp("ge", start(a), end(c))),
